@@ -1,7 +1,7 @@
 // Package c02classify: harness commands for the byte-level part of C02 (packet classification of
 // the pack caches).  The real cache types are driven black-box: CachePack + PushTo into a queue.
 //
-//	classify      case (codec gopon ((channel payload) ...))        -> (kinds pushed)
+//	classify      case (codec gopon ((channel payload [rtp-timestamp]) ...)) -> (kinds pushed)
 //	classify_flv  case (gopon ((tagtype timestamp data) ...))       -> (kinds pushed origs)
 //	flv_producer  see producer.go
 //	flv_viewers   see viewers.go
@@ -33,8 +33,11 @@ func newRtpCache(codec int64, gop bool) packCache {
 	return cache.NewHevcCache(gop)
 }
 
-func mkPkt(channel byte, payload []byte) *rtp.Packet {
-	data := append([]byte{0x80, 96, 0, 1, 0, 0, 0, 0, 0, 0, 0, 1}, payload...)
+func mkPkt(channel byte, payload []byte) *rtp.Packet { return mkPktTs(channel, payload, 0) }
+
+// RTP packet with the given RTP timestamp (case data: the caches must not look at it)
+func mkPktTs(channel byte, payload []byte, ts uint32) *rtp.Packet {
+	data := append([]byte{0x80, 96, 0, 1, byte(ts >> 24), byte(ts >> 16), byte(ts >> 8), byte(ts), 0, 0, 0, 1}, payload...)
 	p := &rtp.Packet{Channel: channel, Data: data}
 	if channel == rtp.ChannelVideo || channel == rtp.ChannelAudio {
 		if err := p.Header.Unmarshal(data); err != nil {
@@ -152,7 +155,7 @@ func Commands() map[string]func(Val) Val {
 		codec, gop := c.At(0).Int(), c.At(1).Bool()
 		var pkts []*rtp.Packet
 		for _, pv := range c.At(2).List() {
-			pkts = append(pkts, mkPkt(byte(pv.At(0).Int()), pv.At(1).Bytes()))
+			pkts = append(pkts, mkPktTs(byte(pv.At(0).Int()), pv.At(1).Bytes(), uint32(pv.At(2).Int())))
 		}
 		kinds := []Val{}
 		for _, p := range pkts {
